@@ -395,7 +395,21 @@ def no_channels(U, rep):
     rep.note('math.normalize no longer forwards axis= to safe_norm (positive example of R7.3 gone)')
 
 
+def fresh_reset_state(U, rep):
+  """R7.6 [dataflow]: the metrics / info dicts a reset hands out are built in reset (= C16 R16.12).  `step` logs with the
+  in-place `state.metrics.update(...)`: under jit / vmap that hits a private copy, evaluated eagerly and alone it writes
+  into whatever object reset handed out -- if that is an attribute of the env, the member evaluated alone (and every
+  later reset) sees the writes of earlier steps while the batched evaluation does not."""
+  envs = c16.physics_envs(U)
+  R = c16._Relabel(rep, 'R7.6', only=('R16.12',))
+  c16.r16_2_3(U, R, envs)
+  rep.check(R.failed == 0, 'R7.6', 'reset of every environment builds the metrics / info dicts it hands out',
+            '%d environment(s) hand out an attribute of the env' % R.failed, where=U.func('brax.envs.base.PipelineEnv.__init__').where(),
+            construct='%d environments' % len(envs))
+
+
 def run(U, rep, tier):
+  fresh_reset_state(U, rep)
   randomised_inner_stack(U, rep, tier)
   no_cached_system_values(U, rep)
   batched_equals_solo(U, rep, tier)
